@@ -457,8 +457,8 @@ def _known_defect(s, ctx, observed, expected):
         return "empty-format-spec"
     try:
         model = ("ok", _KNOWN_DOT_REWRITE.sub(r"{sqlfluff[\1]\2}", s).format(**ctx))
-    except KeyError:
-        model = ("raises", "SQLTemplaterError")
+    except (KeyError, ValueError, IndexError, TypeError, AttributeError):
+        model = ("raises", "SQLTemplaterError")      # the classes render_func turns into a templating error (3a3767c)
     except Exception as e:
         model = ("raises", type(e).__name__)
     if "." in s and model == tuple(observed[:2]) and model != ("ok", expected):
